@@ -30,10 +30,10 @@ def run(ctx):
     ctx.rule('C10.c-inferred-size', 'shard_bytes passed to new() is len(as_ref(first item))')
     for cfg in cfgs:
         facts = ctx.facts(cfg)
-        one(ctx, facts, cfg, 'encode', 'reed_solomon::ReedSolomonEncoder', 'encode',
-            {'original': 'add_original_shard'}, 'recovery_iter')
-        one(ctx, facts, cfg, 'decode', 'reed_solomon::ReedSolomonDecoder', 'decode',
-            {'original': 'add_original_shard', 'recovery': 'add_recovery_shard'}, 'restored_original_iter')
+        ctx.guard('C10.analysable', one, ctx, facts, cfg, 'encode', 'reed_solomon::ReedSolomonEncoder', 'encode',
+                  {'original': 'add_original_shard'}, 'recovery_iter')
+        ctx.guard('C10.analysable', one, ctx, facts, cfg, 'decode', 'reed_solomon::ReedSolomonDecoder', 'decode',
+                  {'original': 'add_original_shard', 'recovery': 'add_recovery_shard'}, 'restored_original_iter')
 
 
 def callee_name(cal):
